@@ -21,6 +21,10 @@ claim("C11", "inclusion-based (Andersen-style, field-based, context-insensitive)
       "For every input and every failure point: no map update, delete, element store, copy, maps.Copy, sort or append-onto-existing-storage site in package genql can target the caller's document (the abstract object seeded at the data parameters of New, Prepare and ExecReader, closed under reachability), except the temporary <- marker when the same function immediately defers the delete of the same key (restored on every exit incl. errors and panics). Over-approximates aliasing; assumes user functions do not mutate their arguments.",
       NOTE, "DESIGN.md 2/C11")
 
+claim("C19", "error-flow analysis: per error-returning call site, path enumeration from the call with the nil branch pruned and classification of every exit (go/ssa), plus nil-result-with-error table of the API functions and ownership/lock-pairing obligations for clean failure",
+      "For every call site (309 on this tree) whose callee can return an error, at any depth and for every invocation: the error is propagated on every path where it is non-nil (never discarded, overwritten, tested-then-nil, swallowed by a loop, turned into an unconverted panic, or its value result used before the test); New/Prepare/exec/execAndPostProcess/Exec return a nil result with every error; nothing caller-visible stays modified after a failure (C11's ownership obligations, cache filled after parse, mutex released). Replaces the k-th-invocation quantifier by a per-site argument; ASYNC/SPIN user calls are outside the property.",
+      NOTE, "DESIGN.md 2/C19")
+
 _pending = "rule set for this property is not implemented yet in this round (see DESIGN.md section 2 for the planned structural rules)"
 for p in ["C01","C02","C03","C04","C05","C06","C07","C09","C10","C11","C12","C13","C14","C15","C16","C17","C18","C19","C20"]:
     if p not in CLAIMED:
